@@ -92,6 +92,24 @@ def run(prop: str, spec: dict, argv) -> int:
                      spec.get("block_fn", "history_block"), kwargs, n_runs,
                      workers=args.workers)
     wall_batch = time.time() - t0
+    extra_info = {}
+    for xb in spec.get("extra_blocks", []):
+        t1 = time.time()
+        n_x = xb["runs"][tier] if not args.runs else max(1, args.runs * xb["runs"]["quick"]
+                                                         // spec["runs"]["quick"])
+        kw2 = dict(kwargs)
+        kw2["engine"] = xb["engine"]
+        kw2.update(xb.get("kwargs", {}))
+        a2 = run_blocks(xb["mod"], xb["fn"], kw2, n_x, workers=args.workers,
+                        block=xb.get("block"))
+        extra_info[xb["engine"]] = {"evaluations": a2.runs, "wall_s": round(time.time() - t1, 2)}
+        extra_info[xb["engine"]].update({k: v for k, v in a2.extra.items()})
+        a2.violations = [tuple(v) + ((None,) if len(v) == 7 else ()) for v in a2.violations]
+        a2.violations = [v[:7] + ((xb["engine"], v[0], v[7]),) for v in a2.violations]
+        runs_before = agg.runs
+        agg.merge(a2)
+        agg.runs = runs_before  # extra blocks report their own evaluation counts
+        extra_info[xb["engine"]]["samples"] = a2.samples[:2]
 
     if agg.harness_errors:
         for e in agg.harness_errors[:5]:
@@ -104,8 +122,10 @@ def run(prop: str, spec: dict, argv) -> int:
     minim_info = {}
     if agg.violations:
         rc = 1
-        agg.violations.sort(key=lambda v: (v[0], v[2]))
-        index, rseed, step, p, c, t, detail = agg.violations[0]
+        agg.violations.sort(key=lambda v: (len(v) > 7, v[0], v[2]))
+        first = agg.violations[0]
+        index, rseed, step, p, c, t, detail = first[:7]
+        recipe = first[7] if len(first) > 7 else None
         sig = (p, c, t)
         from .runner import history_run
         from .shrink import minimise
@@ -113,11 +133,21 @@ def run(prop: str, spec: dict, argv) -> int:
         import re
 
         nt = import_nutree()
-        r = history_run(seed, prop, index, tier, nt=nt,
-                        avoid=[re.compile(x) for x in avoid],
-                        engine=spec.get("engine", "history"),
-                        cfg_overrides=spec.get("cfg_overrides"))
-        record = r.record
+        avoid_rx = [re.compile(x) for x in avoid]
+        if recipe is not None and recipe[0] == "enum":
+            from .enum13 import base_history, with_fault
+
+            record, _c, _s, _v = base_history(seed, recipe[1], tier, avoid_rx, nt)
+            if recipe[2]:
+                record = with_fault(record, *recipe[2])
+        elif recipe is not None:
+            mod = __import__(spec["rebuild_mod"], fromlist=["rebuild_record"])
+            record = mod.rebuild_record(seed, prop, tier, recipe, nt)
+        else:
+            r = history_run(seed, prop, index, tier, nt=nt, avoid=avoid_rx,
+                            engine=spec.get("engine", "history"),
+                            cfg_overrides=spec.get("cfg_overrides"))
+            record = r.record
         rec_min = record if args.no_minimise else minimise(record, sig, nt=nt)
         replay_path = CM.write_replay(prop, rec_min, sig, detail)
         ok, out = CM.replay_in_fresh_interpreter(prop, replay_path)
@@ -170,6 +200,10 @@ def run(prop: str, spec: dict, argv) -> int:
     cov.update(agg.extra_json() if hasattr(agg, "extra_json") else {})
     if minim_info:
         cov["minimisation"] = minim_info
+    for k, v in extra_info.items():
+        cov[k] = v
+    if spec.get("exhaustive_note"):
+        cov["exhaustive_note"] = spec["exhaustive_note"]
     CM.write_evidence(prop, tier, seed, spec["level"], cov, wall,
                       len(agg.violations), spec["assumptions"])
     if not args.quiet:
